@@ -369,9 +369,10 @@ def jobs(tier):
 def run_job(job, seed, tier, rec, known):
     from hypothesis import strategies as st
     ops = D.ops_strategy(job["max_ops"], WEIGHTS, min_ops=6)
-    starts = [["bare", None, None], ["rich", None, None], ["rich", None, None], ["rich", None, "gap"], ["rich", None, "arrays"]]
+    starts = [["bare", None, None], ["rich", None, None], ["rich", None, None], ["rich", None, "gap"], ["rich", None, "arrays"],
+              ["rich", None, "rotate"], ["rich", None, "reverse"]]
     for d in job["decks"]:
-        starts += [["corpus", d, None], ["corpus", d, "arrays"]]
+        starts += [["corpus", d, None], ["corpus", d, "arrays"], ["corpus", d, "rotate"]]
     strat = st.builds(lambda s, m, o: {"start": s, "muts": m, "ops": o}, st.sampled_from(starts), mut_strategy(), ops)
     return hyp_search(lambda c: run_case(c, rec), strat, seed=seed, max_examples=job["n"], rec=rec, known=known,
                       shrink_budget=150)
